@@ -384,7 +384,7 @@ func (ec *evalCtx) specCall(call *ast.CallExpr) Value {
 	case "itoa":
 		need(1)
 		return itoaModel(ec, scalar(arg(0)))
-	case "out", "tr", "ghost", "evSet", "evStatus", "evWrite", "evError", "evDelegate":
+	case "out", "refused", "tr", "ghost", "evSet", "evStatus", "evWrite", "evError", "evDelegate":
 		return ec.ghostCall(name, call)
 	case "int", "int64", "int32", "uint32", "uint8", "byte", "rune", "uint", "uint64", "string":
 		need(1)
@@ -465,6 +465,8 @@ func (ec *evalCtx) ghostCall(name string, call *ast.CallExpr) Value {
 	switch name {
 	case "out":
 		return ec.outLval(ec.eval(call.Args[0])).get()
+	case "refused":
+		return ec.refusedLval(ec.eval(call.Args[0])).get()
 	case "tr":
 		return ec.traceLval(ec.eval(call.Args[0])).get()
 	case "evSet":
